@@ -128,6 +128,9 @@ func (x *c18) violation(model, space string, idx int64, a string, b core.Files, 
 	if prop == "" {
 		prop = "C18"
 	}
+	if prop == "C20" && oracle != "no-panic" && !strings.HasPrefix(sig, "status2") {
+		return // C20 only looks at crashes of the merge
+	}
 	x.res.AddViolation(core.Violation{Property: prop, Engine: "approvex/merge-" + strings.ToLower(model), Space: space,
 		Index: idx, Inputs: inputsOf(core.Files{Main: a}, b), Script: script, Oracle: oracle, Signature: sig, Message: msg})
 }
